@@ -50,6 +50,7 @@ def gen_row(rng, table, uid, lowcard):
 def run_history(args):
     seed, idx, nsteps = args
     rng = random.Random(f"c07-{seed}-{idx}")
+    crng = random.Random(f"c07-checks-{seed}-{idx}")   # separate stream: the histories stay the same
     layout = rng.choice(LAYOUTS)
     lowcard = rng.random() < 0.5
     ntab = rng.choice([1, 1, 2])
@@ -88,6 +89,31 @@ def run_history(args):
                 keys = [x[pki] for x in r["rows"]]
                 if keys != sorted(keys):
                     fail("pk-scan-not-in-key-order", f"{tag}: {name}: scan of primary-key table not in key order: {keys[:12]}")
+                    return False
+            # deleted rows must stay deleted on every access path: key-range reads (pushed into the
+            # scan when uid is the leading primary key) and range counts
+            if mt.rows and crng.random() < 0.6:
+                ui = [i for i, c in enumerate(mt.table.cols) if c.name == "uid"][0]
+                uids = sorted(x[ui] for x in mt.rows)
+                x = crng.choice(uids + [uids[0] - 1, uids[-1] + 1, next_uid[0] // 2])
+                op = crng.choice([">=", "<=", ">", "<", "="])
+                f = {">=": lambda u: u >= x, "<=": lambda u: u <= x, ">": lambda u: u > x, "<": lambda u: u < x, "=": lambda u: u == x}[op]
+                wantu = sorted(u for u in uids if f(u))
+                q = f"select uid from {name} where uid {op} {x}"
+                r = rl.sql(q)
+                res["range_reads"] = res.get("range_reads", 0) + 1
+                if not r["ok"]:
+                    fail("select-failed", f"{tag}: {q}: {r.get('err')} {r.get('panics')}")
+                    return False
+                gotu = sorted(v[0] for v in r["rows"])
+                if gotu != wantu:
+                    extra = [u for u in gotu if u not in wantu][:5]
+                    lost = [u for u in wantu if u not in gotu][:5]
+                    fail("range-read-" + ("resurrected" if extra else "lost"), f"{tag}: {q}: unexpected uids {extra}, lost uids {lost} ({len(gotu)} rows vs model {len(wantu)})")
+                    return False
+                r = rl.sql(f"select count(*) from {name} where uid {op} {x}")
+                if r["ok"] and r["rows"] != [(len(wantu),)]:
+                    fail("range-count", f"{tag}: select count(*) from {name} where uid {op} {x}: {r['rows']} vs model {len(wantu)}")
                     return False
         return True
 
